@@ -9,6 +9,7 @@ Open Scope N_scope.
 Inductive step :=
 | SPut (k v : bytes) | SDel (k : bytes) | SDelRange (s e : bytes) | SMerge (k v : bytes)
 | SCommit | SClear | SNewBatch
+| SFlush                                  (* CompactRange over everything: flush + compaction, no observable effect *)
 | SGet (k : bytes) | SExist (k : bytes) | SMultiGet (ks : list bytes)
 | SIter (o : iter_opts) (vt : N)          (* NewDBRangeLimitIteratorWithOpts, NoTimestamp(vt) *)
 | SRangeIter (o : iter_opts) (vt : N)     (* NewDBRangeIteratorWithOpts *)
@@ -38,6 +39,7 @@ Definition run_step (bounded : bool) (d : db) (s : step) : db * result :=
   | SCommit => let '(d', ok) := db_commit d in (d', RCommit ok)
   | SClear => (db_clear d, RNone)
   | SNewBatch => (db_clear d, RNone)
+  | SFlush => (d, RNone)
   | SGet k => (d, RVal (db_get d k))
   | SExist k => (d, RBool (db_exist d k))
   | SMultiGet ks => (d, RVals (db_multi_get d ks))
